@@ -457,9 +457,14 @@ class DirichletClassificationLikelihood(FixedNoiseGaussianLikelihood):
             self.noise_covar = old_noise_covar
 
         old_noise = old_noise_covar.noise
-        new_targets = kwargs.get("noise")
-        new_noise, new_targets, _ = fantasy_liklihood._prepare_targets(new_targets, self.alpha_epsilon)
+        new_targets = kwargs.get("targets")
+        new_noise, new_transformed_targets, _ = fantasy_liklihood._prepare_targets(
+            new_targets, self.alpha_epsilon, dtype=self.transformed_targets.dtype, num_classes=self.num_classes
+        )
         fantasy_liklihood.targets = torch.cat([fantasy_liklihood.targets, new_targets], -1)
+        fantasy_liklihood.transformed_targets = torch.cat(
+            [fantasy_liklihood.transformed_targets, new_transformed_targets.transpose(-2, -1)], -1
+        )
 
         # old and new noise may each carry batch dimensions the other one lacks
         batch_shape = torch.broadcast_shapes(old_noise.shape[:-1], new_noise.shape[:-1])
